@@ -54,7 +54,7 @@ def run(ctx):
     r = vlib.proof_stage(ctx)
     if err:
         r["ok"] = False; r["failures"].append("fact extraction failed: " + err)
-    cov["trusted_base"] += ["props/C13/extract.py (reads Indexer.indexed's element type and Actor queue length)"]
+    cov["trusted_base"] += ["props/C13/extract.py (reads Indexer.indexed's element type, the Actor queue length, the order write/index in the file writer, and from blob/tree.rs the channel capacities and loader count of TreeStreamerOnce)"]
     cov["source_facts"] = meta
     ctx.assumptions += [
         "the model lets any in-flight item advance at any time and any pack be flushed at any time: a superset of the order-preserving readahead/parallel_map schedules and of should_save's size/time rule",
@@ -74,6 +74,12 @@ def run(ctx):
         ncase *= 3
     lines = []
     nstall = 6 if ctx.thorough() else 1
+    nwide = 3 if ctx.thorough() else 1
+    # a bounded pending queue found in the source: go well beyond its capacity
+    wcap = (meta or {}).get("walker_in_cap")
+    wide_min = (wcap + 4 * ((meta or {}).get("walker_out_cap") or 4) + 300) if wcap else 0
+    if not r["ok"]:
+        nwide *= 2
     for k in range(ncase):
         # last field: bit 0 = one more schedule in which a pack write stalls for 21 s behind one-blob
         # packs; bit 1 = prune (repack_all, fast and re-encoding repack into one-blob packs) under the watchdog
@@ -81,7 +87,13 @@ def run(ctx):
         ne, fs = rng.choice([6, 15, 30, 60]), rng.choice([2000, 20000, 70000, 200000])
         if extra & 1:
             ne, fs = 60, 200000     # enough one-blob packs to queue up behind the stalled write
-        lines.append("%d %d %d %d %d" % (rng.randrange(1, 2 ** 40), nsched, ne, fs, extra))
+        # bit 2 = the parallel tree walker (TreeStreamerOnce) is run over both snapshot roots and compared
+        # with the walker model; in a few cases the source gets one directory with `wide` sub-directories
+        # (more pending trees at once than any small queue bound; widened when an obligation is broken)
+        extra |= 4
+        wide_here = nstall <= k < nstall + nwide
+        wide = (max(1300, wide_min) if wide_here else 0)
+        lines.append("%d %d %d %d %d %d" % (rng.randrange(1, 2 ** 40), nsched, ne, fs, extra, wide))
     outs = []
     pools = ["1", "2", "4", "16"]
     per = (len(lines) + len(pools) - 1) // len(pools)
@@ -93,6 +105,7 @@ def run(ctx):
         for res in ex.map(one, range(len(pools))):
             outs += res
     viol, replays, samples, hist = [], [], [], {"schedules": 0, "packs": 0, "dup_across_packs": 0}
+    walks = []
     nontriv = set()
     for li, (ln, out) in enumerate(zip(lines, outs)):
         pool = pools[min(li // per, len(pools) - 1)]
@@ -100,7 +113,19 @@ def run(ctx):
             viol.append(("backup under a perturbed schedule did not complete: " + out.split()[0], ln, out, pool)); continue
         segs = [x.strip() for x in out.split("|")]
         scheds = [parse_sched(s) for s in segs[1:]]
-        for tok in segs[0].split():
+        head0 = segs[0]
+        if " walk=" in head0:
+            wnote = head0.split(" walk=", 1)[1].split(";")[0].strip()
+            head0 = head0.split(" walk=", 1)[0]
+            counts, graph = wnote.split(" W ", 1)
+            nd, dups, missing, order_bad = [int(x) for x in counts.split(":")]
+            hist["walks"] = hist.get("walks", 0) + 1
+            hist["walk_trees"] = hist.get("walk_trees", 0) + nd
+            if dups or missing or order_bad:
+                viol.append(("the parallel tree walker (TreeStreamerOnce) delivered a tree twice / missed a listed subtree / delivered a tree before anything named it", ln,
+                             "delivered=%d duplicates=%d missing=%d out-of-order=%d" % (nd, dups, missing, order_bad), pool))
+            walks.append((ln, graph))
+        for tok in head0.split():
             if tok.startswith("prune"):
                 hist["prune_runs"] = hist.get("prune_runs", 0) + 1
                 kind, val = tok.split("=")
@@ -138,6 +163,17 @@ def run(ctx):
             want = "ok final=true idx=[%s]" % " ".join("%s:%s" % ("dt"[t], ",".join(map(str, p))) for t, p in packs)
             if o.strip() != want.strip():
                 mism.append((ln, j, o, want))
+        # the walker model (capacities from the source, first-enabled scheduler) on the tree graph each real walk saw
+        if walks:
+            wo = run_lines(model, [g for _, g in walks], "walker")
+            for (ln, g), o in zip(walks, wo):
+                gt = g.split()
+                nroots = int(gt[0]); ntrees = int(gt[1 + nroots]); i = 2 + nroots; real = []
+                for _ in range(ntrees):
+                    real.append(int(gt[i])); i += 2 + int(gt[i + 1])
+                want = "stuck=false final=true delivered=%s" % ",".join(map(str, sorted(real)))
+                if o.strip() != want:
+                    mism.append((ln, "walker", o[:300], want[:300]))
         # random maximal runs of the model itself
         rl = ["%d %d %d" % (rng.randrange(10 ** 6), rng.choice([5, 20, 60]), rng.choice([3, 8, 30])) for _ in range(300 if ctx.thorough() else 60)]
         nrand = len(rl)
@@ -145,7 +181,7 @@ def run(ctx):
             if "stuck=false final=true" not in o or "all_indexed=true" not in o or "written_indexed=true" not in o:
                 mism.append((l, "random", o, "stuck=false final=true all_indexed=true written_indexed=true"))
     cov.update({"evaluations": len(lines) * nsched + nrand, "distinct_nontrivial": len(nontriv),
-                "rule": "case = seeded source tree (6..60 entries, files up to 2..200 KB, rabin avg 8 KiB) backed up %d times from the same initial repository under schedules j: pack sizes from one blob per pack to 4 MB, seeded 0..400 us delays before every backend write (off for j%%3==0), RAYON_NUM_THREADS in {1,2,4,16}; in a few cases one more schedule with a 21 s stall of one pack write behind one-blob packs; every case also runs backup, backup of a reduced source, forget, prune --repack-all (fast and re-encoding) into one-blob packs under the watchdog; non-trivial = at least two schedules produced different pack layouts" % nsched,
+                "rule": "case = seeded source tree (6..60 entries, files up to 2..200 KB, rabin avg 8 KiB) backed up %d times from the same initial repository under schedules j: pack sizes from one blob per pack to 4 MB, seeded 0..400 us delays before every backend write (off for j%%3==0), RAYON_NUM_THREADS in {1,2,4,16}; in a few cases one more schedule with a 21 s stall of one pack write behind one-blob packs; every case also runs backup, backup of a reduced source, forget, prune --repack-all (fast and re-encoding) into one-blob packs under the watchdog, and the parallel tree walker over both snapshot roots (compared with the walker model; in a few cases over a directory with >= 1300 sub-directories); non-trivial = at least two schedules produced different pack layouts" % nsched,
                 "samples": samples, "distribution": hist,
                 "traces_validated_against_impl": len(replays), "model_random_runs": nrand,
                 "disagreements_checked": len(mism) + len(viol), "model_impl_mismatches": len(mism), "oracle_violations": len(viol)})
